@@ -5,6 +5,7 @@ CONSTANTS
   Files <- PristineQuick
   MaxOps = 0
   CrashPts <- Points
+  KeepPts <- KeepAll
   KeepHist = TRUE
   Mode = "pristine"
 INVARIANTS PristineLemmas EmitPristine
